@@ -178,7 +178,10 @@ def mask_file(regionfile, infile, outfile, negate=False):
         wcs = pywcs.WCS(str(im[0].header), naxis=2)
 
     if len(im[0].data.shape) > 2:
-        data = np.squeeze(im[0].data)
+        # drop degenerate leading axes but never the two image axes
+        shape = im[0].data.shape
+        data = im[0].data.reshape(
+            [n for n in shape[:-2] if n > 1] + list(shape[-2:]))
     else:
         data = im[0].data
 
